@@ -93,21 +93,21 @@ theorem u8_ofNat_toNat {n : Nat} (h : n < 256) : (UInt8.ofNat n).toNat = n := by
   simp [Nat.mod_eq_of_lt h]
 
 theorem putUvarint_eq_varint (n : Nat) (h : n < 2 ^ 28) : putUvarint n = Wire.varint n := by
-  unfold Wire.varint
+  unfold Wire.varint putUvarint
   split
-  · unfold putUvarint; rw [if_neg (by omega)]
+  · unfold putUvarintAux; rw [if_neg (by omega)]
   · split
-    · unfold putUvarint; rw [if_pos (by omega)]
-      unfold putUvarint; rw [if_neg (by omega)]
+    · unfold putUvarintAux; rw [if_pos (by omega)]
+      unfold putUvarintAux; rw [if_neg (by omega)]
     · split
-      · unfold putUvarint; rw [if_pos (by omega)]
-        unfold putUvarint; rw [if_pos (by omega)]
-        unfold putUvarint; rw [if_neg (by omega)]
+      · unfold putUvarintAux; rw [if_pos (by omega)]
+        unfold putUvarintAux; rw [if_pos (by omega)]
+        unfold putUvarintAux; rw [if_neg (by omega)]
         rw [Nat.div_div_eq_div_mul]
-      · unfold putUvarint; rw [if_pos (by omega)]
-        unfold putUvarint; rw [if_pos (by omega)]
-        unfold putUvarint; rw [if_pos (by omega)]
-        unfold putUvarint; rw [if_neg (by omega)]
+      · unfold putUvarintAux; rw [if_pos (by omega)]
+        unfold putUvarintAux; rw [if_pos (by omega)]
+        unfold putUvarintAux; rw [if_pos (by omega)]
+        unfold putUvarintAux; rw [if_neg (by omega)]
         rw [Nat.div_div_eq_div_mul, Nat.div_div_eq_div_mul]
 
 theorem uvarint_varint (n : Nat) (h : n < 2 ^ 28) (tail : Bytes) :
